@@ -128,10 +128,12 @@ theorem store_entries_roundtripU {clW clR clBits : List Nat} {symBits : Nat → 
     (hd : ∀ x ∈ d, x ≤ 15) (hlen : d.length < 2 ^ 64) (hk : kraftSum 15 d = 32768)
     (useNZ useZ : Bool)
     (hvalid : ∀ e ∈ writeHuffmanTreeWith useNZ useZ d, ValidEntryU used e) (w rest : List Bool) :
-    ∃ bits, storeHuffmanTreeToBitMask clW clBits (writeHuffmanTreeWith useNZ useZ d) w
-        = .ok (w ++ bits) ∧
-      readLensGo clR d.length (d.length + 1) ⟨[], 8, none⟩ (bits ++ rest) = some (d, rest) := by
-  refine ⟨_, storeEntriesU hc _ w hvalid, ?_⟩
+    storeHuffmanTreeToBitMask clW clBits (writeHuffmanTreeWith useNZ useZ d) w
+        = .ok (w ++ ((writeHuffmanTreeWith useNZ useZ d).map (entryBitsU symBits)).flatten) ∧
+      readLensGo clR d.length (d.length + 1) ⟨[], 8, none⟩
+        (((writeHuffmanTreeWith useNZ useZ d).map (entryBitsU symBits)).flatten ++ rest)
+        = some (d, rest) := by
+  refine ⟨storeEntriesU hc _ w hvalid, ?_⟩
   have hd' : ∀ x ∈ trimTrailingZeros d, x < 16 :=
     trim_lt d (fun x hx => Nat.lt_succ_of_le (hd x hx))
   have hl := trim_length_le d
